@@ -21,6 +21,7 @@ REGISTRY = {
     "C08": "constructors",
     "C09": "metric",
     "C12": "purity",
+    "C16": "membership",
 }
 
 
